@@ -230,6 +230,26 @@ def processClocks (fixed : Bool) (t : Tap) (clocks : Nat) : Option Err × Tap :=
     (none, { t with delay := if clocks > t.delay then 0 else t.delay - clocks })
   else fire fixed t
 
+/-- one firing of the state machine: when (T-states since the start of the run, counting the call
+that fired), the EAR level and the delay it left behind -/
+structure Fire where
+  time : Nat
+  level : Bool
+  delay : Nat
+  deriving DecidableEq, Repr
+
+/-- Drives `process_clocks` with a schedule of steps, starting at time `now`, and logs every firing
+(a call that found a running tape with `delay = 0`), oldest first. Stops at the first error. -/
+def runLog (fixed : Bool) : List Nat → Tap → Nat → Option Err × Tap × List Fire
+  | [], t, _ => (none, t, [])
+  | c :: cs, t, now =>
+    let fired := t.state != .stop && t.delay == 0
+    match processClocks fixed t c with
+    | (some e, t') => (some e, t', [])
+    | (none, t') =>
+      let r := runLog fixed cs t' (now + c)
+      (r.1, r.2.1, if fired then ⟨now + c, t'.currBit, t'.delay⟩ :: r.2.2 else r.2.2)
+
 /-! ## Cassette commands (C12) -/
 
 inductive DeckCmd
